@@ -50,7 +50,7 @@ def parseVars (s : String) : List (Str × Bool) :=
     | _ => none
 
 def parseDesc (std : List Key × List Key) (ok imps clss vars extra : String) : Desc :=
-  { syntaxOk := ok == "1", imports := parseImports imps, classes := parseClasses clss, vars := parseVars vars,
+  { syntaxOk := ok != "0", crash := ok == "2", imports := parseImports imps, classes := parseClasses clss, vars := parseVars vars,
     extra := extra.toNat!, stdMethod := std.1, stdVar := std.2 }
 
 abbrev S := State Desc Desc Desc Str Str
@@ -105,6 +105,11 @@ def step' (d : DSt) : List String → DSt × String
   | ["load", m] => doOp d (.load (s2l m))
   | ["transpile", m] => doOp d (.transpile (s2l m))
   | ["unload", m] => doOp d (.unload (s2l m))
+  -- the import edges of a module as the model reads them (what `Modules.__load_dependencies` / `__dependent_paths` follow)
+  | ["imports", m] =>
+    (d, match (alookup d.disk (s2l m)).bind descLang.parse with
+        | some t => s!"imports|{commas (descLang.imports t)}"
+        | none => "imports|none")
   | ["resubmit", ok, imps, clss, vars] => doOp d (.resubmit (parseDesc d.std ok imps clss vars "0"))
   | _ => (d, "bad-op")
 
